@@ -443,3 +443,135 @@ for _d, _t in ((0, _PROJ1), (1, _PROJ2), (2, _PROJ3)):
                               ensures=[("a (nested) projection of a literal is the typed literal of the INNERMOST value on the OUTERMOST type; any other source is left alone", _simplify_post(_d))],
                               uses={"SemanticAnalyzer._try_simplify_signal_projection": "inline"}, properties=("C01", "C13"), min_obligations=2, no_replay=True, note=f"{_d + 1} projection(s)"))
 CONTRACTS += [v for v in _OS_USES.values() if isinstance(v, Contract) and v.qualname.startswith(AN) and v not in CONTRACTS]
+
+
+# =================================================================================================
+# Bundles and entities in the analyser (C14 / C02 / C06 / C09).
+#   _validate_place_call          place() takes 3 or 4 arguments (else ONE error, nothing analysed); a prototype that is not a string literal is ONE
+#                                 error; a fourth argument that is not a dictionary literal is ONE error; x, y and every dictionary value are analysed
+#                                 (their own errors are not lost); the prototype text is recorded on the call
+#   _infer_bundle_filter_type     `(bundle CMP x) : out`: a bundle on the RIGHT of the comparison is ONE error; right side and output are analysed; the
+#                                 result is a bundle with the SOURCE bundle's members (a copy of the set, not the same object)
+#   _infer_entity_output_type     `e.output`: ONE error when e is undefined or not an entity; always a dynamic bundle naming e
+#   _infer_bundle_any_type / _all_type   ONE error when the argument is not a bundle; always a signal on a fresh type
+# =================================================================================================
+PLC = {}
+
+
+def _plc_reset(a):
+    PLC.clear()
+    return _leaf_reset(a)
+
+
+def _place_post(n_args, proto_cls, dict_cls):
+    def post(a, res):
+        node = a.node
+        args = list(node.args)
+        if n_args not in (3, 4):
+            return _b(len(ERR) == 1 and not TYPED and "prototype" not in node.metadata)
+        errs = (0 if proto_cls == "StringLiteral" else 1)
+        want_typed = [args[1], args[2]]
+        if n_args == 4:
+            if dict_cls == "DictLiteral":
+                want_typed += list(args[3].entries.values())
+            else:
+                errs += 1
+        ok = len(ERR) == errs and len(TYPED) == len(want_typed) and all(x is y for x, y in zip(TYPED, want_typed))
+        if proto_cls == "StringLiteral":
+            ok = ok and node.metadata.get("prototype") is args[0].value
+        else:
+            ok = ok and "prototype" not in node.metadata
+        return _b(ok)
+    return post
+
+
+_IDX = ty.TObj("Expr", only=("IdentifierExpr",))
+for _n, _pc, _dc in ((2, "StringLiteral", None), (5, "StringLiteral", None), (3, "StringLiteral", None), (3, "IdentifierExpr", None), (4, "StringLiteral", "DictLiteral"),
+                     (4, "StringLiteral", "IdentifierExpr"), (4, "IdentifierExpr", "IdentifierExpr")):
+    _proto = ty.TObj("Expr", only=(_pc,), ftypes=(("value", ty.Str),))
+    _args = [_proto, _IDX, _IDX][:_n] if _n <= 3 else [_proto, _IDX, _IDX]
+    if _n >= 4:
+        _args.append(ty.TObj("Expr", only=(_dc or "IdentifierExpr",), ftypes=(("entries", ty.TRecord((("direction", _IDX), ("recipe", _IDX)))),)))
+    if _n == 5:
+        _args.append(_IDX)
+    CONTRACTS.append(Contract(
+        qualname=AN + "_validate_place_call",
+        params={"self": _SELF, "node": ty.TObj("CallExpr", only=("CallExpr",), ftypes=(("args", ty.TTuple(tuple(_args))), ("metadata", ty.TConcrete({}))))},
+        requires=[("(reset capture)", _plc_reset)],
+        ensures=[("3 or 4 arguments, a string-literal prototype and a dictionary-literal fourth argument are demanded (one error each); x, y and the dictionary's values are analysed; "
+                  "the prototype text is recorded", _place_post(_n, _pc, _dc))],
+        uses={**_USES, "SemanticAnalyzer.get_expr_type": Contract(qualname=AN + "get_expr_type", params={"self": _OPQ, "expr": _OPQ}, effect=lambda ex, a: (TYPED.append(a.expr), ghost(a.expr, "type", _VT))[1],
+                                                                   verify=False, note="type of a sub-expression (records that it was analysed)")},
+        dynamic_types=_DYN, properties=("C14", "C09"), min_obligations=1, no_replay=True, note=f"{_n} arguments, prototype {_pc}" + (f", fourth {_dc}" if _dc else "")))
+
+
+def _bt_type(ex, a):
+    TYPED.append(a.expr)
+    return ghost(a.expr, "type", ty.TObj("ValueInfo", only=("IntValue", "SignalValue", "BundleValue", "DynamicBundleValue"), ftypes=(("signal_types", ty.TConcrete({"signal-A", "signal-B"})),)))
+
+
+_bt_get = Contract(qualname=AN + "get_expr_type", params={"self": _OPQ, "expr": _OPQ}, effect=_bt_type, verify=False, note="type of a sub-expression (records that it was analysed)")
+
+
+def _filter_post(a, res):
+    c = a.expr.condition
+    lt, rt = c.left._fields.get("@type"), c.right._fields.get("@type")
+    if lt is None or rt is None:
+        return False
+    right_bundle = Or(_is(rt, "BundleValue"), _is(rt, "DynamicBundleValue"))
+    return And(_b(len(TYPED) == 3 and TYPED[0] is c.left and TYPED[1] is c.right and TYPED[2] is a.expr.output_value),
+               len(ERR) == ops.ite(right_bundle, 1, 0),
+               _b(isa(res, "BundleValue") is True and res.signal_types == lt.signal_types and res.signal_types is not lt.signal_types))
+
+
+CONTRACTS.append(Contract(
+    qualname=AN + "_infer_bundle_filter_type",
+    params={"self": _SELF, "expr": ty.TObj("OutputSpecExpr", only=("OutputSpecExpr",), ftypes=(("condition", ty.TObj("BinaryOp", only=("BinaryOp",), ftypes=(("left", _IDX), ("right", _IDX)))), ("output_value", _IDX)))},
+    requires=[("(reset capture)", _plc_reset), ("the left operand is a bundle (what makes this the filter pattern: _is_bundle_filter_pattern)",
+                                              lambda a: _force_class(a.expr.condition.left, "BundleValue"))],
+    ensures=[("bundle on the right: ONE error; all three parts analysed; result: a bundle with the source's members (its own copy)", _filter_post)],
+    uses={**_USES, "SemanticAnalyzer.get_expr_type": _bt_get}, dynamic_types=_DYN, properties=("C14", "C02"), min_obligations=2, no_replay=True))
+
+
+def _force_class(node, cls):
+    """the scenario's precondition: the ghost type of this node is of the given class"""
+    t = ghost(node, "type", ty.TObj("ValueInfo", only=(cls,), ftypes=(("signal_types", ty.TConcrete({"signal-A", "signal-B"})),)))
+    return t is not None
+
+
+def _entout_lookup(ex, a):
+    PLC.setdefault("looked_up", []).append(a.name)
+    return ghost(ex.args_ns.expr, "symbol", ty.TOpt(ty.TObj("Symbol", only=("Symbol",), ftypes=(("symbol_type", ty.Str),))))
+
+
+def _entout_post(a, res):
+    sym = a.expr._fields.get("@symbol")
+    ok = isa(res, "DynamicBundleValue") is True and res.source_entity_id is a.expr.entity_name and len(PLC.get("looked_up", [])) == 1 and PLC["looked_up"][0] is a.expr.entity_name
+    if sym is None:
+        return _b(ok and len(ERR) == 1)
+    return And(_b(ok), len(ERR) == ops.ite(sym.symbol_type == "entity", 0, 1))
+
+
+CONTRACTS.append(Contract(
+    qualname=AN + "_infer_entity_output_type", params={"self": _SELF, "expr": ty.TObj("EntityOutputExpr", only=("EntityOutputExpr",), ftypes=(("entity_name", ty.Str),))},
+    requires=[("(reset capture)", _plc_reset)],
+    ensures=[("ONE error for an undefined name or a name that is not an entity; always a dynamic bundle naming the entity", _entout_post)],
+    uses={**_USES, "SymbolTable.lookup": Contract(qualname="dsl_compiler/src/semantic/symbol_table.py::SymbolTable.lookup", params={"self": _OPQ, "name": _OPQ}, effect=_entout_lookup, verify=False,
+                                                  note="proved in contracts.c14: innermost definition of the name, None when undefined")},
+    dynamic_types=_DYN, properties=("C14", "C06"), min_obligations=3, no_replay=True))
+
+
+def _anyall_post(a, res):
+    t = a.expr.bundle._fields.get("@type")
+    if t is None or len(TYPED) != 1 or TYPED[0] is not a.expr.bundle:
+        return False
+    return And(len(ERR) == ops.ite(_is(t, "BundleValue"), 0, 1), _b(_fresh_signal(res)))
+
+
+for _fn, _cls in (("_infer_bundle_any_type", "BundleAnyExpr"), ("_infer_bundle_all_type", "BundleAllExpr")):
+    CONTRACTS.append(Contract(
+        qualname=AN + _fn, params={"self": _SELF, "expr": ty.TObj(_cls, only=(_cls,), ftypes=(("bundle", _IDX),))},
+        requires=[("(reset capture)", _plc_reset)],
+        ensures=[("ONE error when the argument is not a bundle; the result is a signal on a fresh type", _anyall_post)],
+        uses={**_USES, "SemanticAnalyzer.get_expr_type": _bt_get}, dynamic_types=_DYN, properties=("C14", "C02"), min_obligations=2, no_replay=True))
+CONTRACTS.append(_bt_get)
